@@ -1,6 +1,6 @@
 (* C14 — Serials advance once per change and retained history is bounded. *)
 From Coq Require Import List NArith Bool.
-From RV Require Import Base.KMap Base.Serial32 C11.Model C11.Proofs C13.Model C13.Proofs.
+From RV Require Import Base.KMap Base.Serial32 C11.Model C11.Proofs C13.Model C13.Proofs C13.Spec C13.SpecProofs.
 Import ListNotations.
 Local Open Scope N_scope.
 
@@ -29,6 +29,13 @@ Proof. intros h w R. exact (inv_len h w (Reach_Inv _ _ R)). Qed.
 
 Theorem C14_keep_constant : forall h s, keep (fst (update h s)) = keep h.
 Proof. exact update_keep. Qed.
+
+(* the executable oracle of the shared history stream (its C14 part: changed flag, serial steps of exactly
+   one per change, first serial 0, at most max(history-size, 1) retained change sets after every update)
+   accepts what the model observes, for every start state and sequence of data sets *)
+Theorem C14_model_satisfies_spec : forall c, inputs_ok c = true -> c_keep c < H31 ->
+  N.of_nat (length (final_issued c)) <= M32 -> spec_okb (model_case c) = true.
+Proof. exact model_satisfies_spec. Qed.
 
 Example C14_nonvacuous :
   let a := {| origins := [(1, tt)]; rkeys := []; aspas := [] |} in
